@@ -461,3 +461,49 @@ def r09a(ctx):
 def _only_raises(fn):
     body = [s for s in fn.body if not (isinstance(s, ast.Expr) and isinstance(s.value, ast.Constant))]
     return bool(body) and all(isinstance(s, ast.Raise) for s in body)
+
+
+@rule(
+    "R09f",
+    ["C09", "C05"],
+    """LAZY VALUES BECOME OPERANDS, ALSO BY KEYWORD: the user-function entry points (map_partitions, map_overlap) copy their
+    **kwargs into the kwargs dict of every task. Positional arguments become operands of the expression (collections are
+    unpacked, their graphs merged); a collection passed by keyword must be lifted the same way or refused - otherwise every
+    task embeds the collection object itself and the graph loses the dependency on the computation that produces it.""",
+)
+def r09f(ctx):
+    model = ctx.model
+    n = 0
+    for fname in ("map_partitions", "map_overlap"):
+        mod, fn = model.func("_collection", fname)
+        ctor = [c for c in ast.walk(fn) if isinstance(c, ast.Call) and (dotted(c.func) or "").split(".")[-1] in ("MapPartitions", "MapOverlap", "MapOverlapAlign")]
+        if not ctor:
+            raise AnalysisError(f"anchor vanished: expression construction in {fname}")
+        kw = fn.args.kwarg.arg if fn.args.kwarg else None
+        if kw is None:
+            continue
+        forwards = [c for c in ctor if any(isinstance(a, ast.Name) and a.id == kw for a in list(c.args) + [k.value for k in c.keywords])]
+        if not forwards:
+            continue
+        n += 1
+        # a test of the keyword VALUES for collections anywhere before the construction
+        handled = False
+        for node in ast.walk(fn):
+            if isinstance(node, ast.Call) and isinstance(node.func, ast.Name) and node.func.id == "isinstance" and len(node.args) == 2:
+                kinds = {dotted(e) for e in (node.args[1].elts if isinstance(node.args[1], ast.Tuple) else [node.args[1]])}
+                if kinds & {"FrameBase", "Scalar", "Expr", "expr.Expr", "Delayed"}:
+                    # the tested value must come from the kwargs dict
+                    holder = node
+                    while holder is not None and not isinstance(holder, (ast.stmt, ast.comprehension, ast.DictComp, ast.ListComp, ast.GeneratorExp)):
+                        holder = getattr(holder, "_parent", None)
+                    scope = holder
+                    while scope is not None and not isinstance(scope, ast.stmt):
+                        scope = getattr(scope, "_parent", None)
+                    if scope is not None and f"{kw}." in ast.unparse(scope):
+                        handled = True
+        cid = f"_collection.{fname}:lazy-kwargs"
+        if handled:
+            ctx.ok(cid, mod.loc(forwards[0]), "keyword values are inspected for collections")
+        else:
+            ctx.bad(cid, mod.loc(forwards[0]), f"{fname} hands **{kw} to the expression without looking at the values: a Scalar / collection passed by keyword is copied into every task as an object instead of becoming an operand")
+    ctx.floor("user-function entry points forwarding **kwargs", n, 2)
